@@ -227,6 +227,16 @@ impl TypeParams {
             match replace {
                 Some(ty) => {
                     let mut ty = ty.clone();
+                    // `type V = Vec<N>`: other parameters are not in scope of the impl either
+                    traverse_type(&mut ty, &mut |ty| {
+                        if let Type::Path(tp) = ty {
+                            if tp.qself.is_none() {
+                                if let Some(substitute) = self.find(&tp.path) {
+                                    *ty = substitute;
+                                }
+                            }
+                        }
+                    });
                     self.fix_source_lifetime_implicit(&mut ty);
                     generics.push(quote!(#ty))
                 }
